@@ -333,6 +333,38 @@ theorem MIdx.find_none {vis : Vis} (hc : Complete vis) (acc : Acc) (m : MIdx) (K
   simp only at this
   rw [hk] at this; exact absurd this (by simp)
 
+theorem UIdx.find_none' {vis : Vis} (hc : Complete vis) (u : UIdx) (h : Nat) (pred : Nat → Bool)
+    (hh : ∀ e ∈ u.ents, pred e.id = true → e.h0 = h) (hf : u.find vis h pred = none) : ∀ e ∈ u.ents, pred e.id = false := by
+  intro e he
+  obtain ⟨i, hi, rfl⟩ := getElem_of_mem he
+  unfold UIdx.find at hf
+  by_contra hne
+  have hk : pred u.ents[i].id = true := by simpa using hne
+  have := findPos_none hc hf i (by rw [getElem?_map, getElem?_eq_getElem hi]; simp [hh _ (getElem_mem hi) hk])
+  rw [u.idAt_lt hi] at this
+  rw [hk] at this; exact absurd this (by simp)
+
+theorem UIdx.find_some' {vis : Vis} (u : UIdx) (h : Nat) (pred : Nat → Bool) {p : Nat} (hf : u.find vis h pred = some p) :
+    p < u.ents.length ∧ pred (u.idAt p) = true := by
+  unfold UIdx.find at hf
+  simpa using findPos_some hf
+
+theorem MIdx.find_none' {vis : Vis} (hc : Complete vis) (m : MIdx) (h : Nat) (pred : Nat → Bool)
+    (hh : ∀ g ∈ m.groups, pred g.key = true → g.h0 = h) (hf : m.find vis h pred = none) : ∀ g ∈ m.groups, pred g.key = false := by
+  intro g hg
+  obtain ⟨i, hi, rfl⟩ := getElem_of_mem hg
+  unfold MIdx.find at hf
+  by_contra hne
+  have hk : pred m.groups[i].key = true := by simpa using hne
+  have := findPos_none hc hf i (by rw [getElem?_map, getElem?_eq_getElem hi]; simp [hh _ (getElem_mem hi) hk])
+  rw [m.keyAt_lt hi] at this
+  rw [hk] at this; exact absurd this (by simp)
+
+theorem MIdx.find_some' {vis : Vis} (m : MIdx) (h : Nat) (pred : Nat → Bool) {p : Nat} (hf : m.find vis h pred = some p) :
+    p < m.groups.length ∧ pred (m.keyAt p) = true := by
+  unfold MIdx.find at hf
+  simpa using findPos_some hf
+
 theorem modify_split {α : Type} (l A B : List α) (g : α) (f : α → α) (h : l = A ++ g :: B) :
     l.modify A.length f = A ++ f g :: B := by
   subst h
@@ -633,9 +665,9 @@ theorem rejectAdd_noPos_m (m : MIdx) (h : m.kAdd = none) : m.rejectAdd = m := by
 
 /-- two stores that hold the same raws with the same values at the same addresses (row numbers may differ) -/
 def StoreSim (st st' : Store) : Prop :=
-  ids st' = ids st ∧ (∀ x, valsOf st' x = valsOf st x) ∧ (∀ x, addrOf st' x = addrOf st x)
+  (ids st').Perm (ids st) ∧ (∀ x, valsOf st' x = valsOf st x) ∧ (∀ x, addrOf st' x = addrOf st x)
 
-theorem StoreSim.refl (st : Store) : StoreSim st st := ⟨rfl, fun _ => rfl, fun _ => rfl⟩
+theorem StoreSim.refl (st : Store) : StoreSim st st := ⟨Perm.refl _, fun _ => rfl, fun _ => rfl⟩
 
 theorem StoreSim.trans {a b c : Store} (h1 : StoreSim a b) (h2 : StoreSim b c) : StoreSim a c :=
   ⟨h2.1.trans h1.1, fun x => (h2.2.1 x).trans (h1.2.1 x), fun x => (h2.2.2 x).trans (h1.2.2 x)⟩
@@ -663,7 +695,7 @@ theorem ids_forall₂ {st st' : Store}
 
 theorem storeSim_of_forall₂ {st st' : Store}
     (h : Forall₂ (fun a b : Row => b.id = a.id ∧ b.vals = a.vals ∧ b.addr = a.addr) st st') : StoreSim st st' := by
-  refine ⟨ids_forall₂ h, ?_, ?_⟩
+  refine ⟨Perm.of_eq (ids_forall₂ h), ?_, ?_⟩
   · intro x
     unfold valsOf
     have := rowOf_forall₂ h x
@@ -677,20 +709,30 @@ theorem storeSim_of_forall₂ {st st' : Store}
 
 theorem UInv_sim {acc : Acc} {st st' : Store} {u : UIdx} (h : StoreSim st st') (hu : UInv acc st u) : UInv acc st' u := by
   obtain ⟨hi, hv, _⟩ := h
-  refine ⟨hu.colsNodup, hu.noPos, by rw [hi]; exact hu.perm, ?_, ?_⟩
+  refine ⟨hu.colsNodup, hu.noPos, hu.perm.trans hi.symm, ?_, ?_⟩
   · intro e he; rw [hv]; exact hu.hash e he
   · intro x hx y hy hk
-    rw [hi] at hx hy; rw [hv, hv] at hk
-    exact hu.uniq x hx y hy hk
+    rw [hv, hv] at hk
+    exact hu.uniq x (hi.mem_iff.mp hx) y (hi.mem_iff.mp hy) hk
 
 theorem MInv_sim {acc : Acc} {st st' : Store} {m : MIdx} (h : StoreSim st st') (hm : MInv acc st m) : MInv acc st' m := by
   obtain ⟨hi, hv, ha⟩ := h
-  refine ⟨hm.colsNodup, hm.noPos, by rw [hi]; exact hm.perm, ?_, ?_, ?_, ?_⟩
+  refine ⟨hm.colsNodup, hm.noPos, hm.perm.trans hi.symm, ?_, ?_, ?_, ?_⟩
   · intro g hg; rw [hv]; exact hm.hash g hg
   · intro g hg x hx; rw [hv, hv]; exact hm.same g hg x hx
   · refine hm.distinct.imp ?_
     intro a b hab; rw [hv, hv]; exact hab
   · intro g hg
     exact (SegSorted_congr (fun x _ => ha x)).mpr (hm.sorted g hg)
+
+theorem storeSim_of_perm {st st' : Store} (hp : st.Perm st') (hnd : (ids st).Nodup) : StoreSim st st' := by
+  have hnd' : (ids st').Nodup := (hp.map _).nodup_iff.mp hnd
+  have key : ∀ x, rowOf st' x = rowOf st x := by
+    intro x
+    by_cases hx : x ∈ ids st
+    · obtain ⟨row, hrow, rfl⟩ := mem_ids_iff.mp hx
+      rw [rowOf_mem hnd hrow, rowOf_mem hnd' (hp.mem_iff.mp hrow)]
+    · rw [rowOf_none hx, rowOf_none (fun h => hx ((hp.map _).mem_iff.mpr h))]
+  exact ⟨(hp.map _).symm, fun x => by unfold valsOf; rw [key], fun x => by unfold addrOf; rw [key]⟩
 
 end Momo.Table
